@@ -464,3 +464,128 @@ def replay_rows(trace):
         else:
             bad.append((pid, a, ev))
     return saves, bad
+
+
+# ----------------------------------------------------------------------------- run-loop replay (RunLoop acceptor)
+
+def runloop_events(trace):
+    """pid -> (keep_going flag or None, [wire events]) for every process that entered builder::run: the control flow of
+    the two loops of builder::run as that process logged it (hooks run.*, lock.*, job.*), for the Lean acceptor
+    RunLoop.step.  A result known without a child (`im`) takes its status from the run.job_result the process logs
+    when it polls that job; an internal error (`run.drained err`) is placed before the job ends that followed it."""
+    per = {}
+    result_of = {}                       # (pid, fid) -> status string from run.job_result
+    for pid, ts, name, a in trace:
+        if name == "run.job_result" and len(a) >= 2:
+            result_of[(pid, int(a[0]))] = a[1]
+    st = {}
+    for pid, ts, name, a in trace:
+        if name == "run.begin":
+            st[pid] = dict(ev=[], kg=None, cur=None, forked=set(), lastrv={}, waited=None, fe=None, done=False, aborted=False)
+            per[pid] = st[pid]
+            continue
+        s = st.get(pid)
+        if s is None or s["done"]:
+            continue
+        ev = s["ev"]
+        if name == "run.token":
+            ev.append("tk")
+        elif name == "run.check":
+            ev.append("ck,%s" % a[1])
+            if len(a) >= 3:
+                s["kg"] = a[2] == "1"
+        elif name == "run.target":
+            ev.append("tg,%s" % a[0])
+        elif name == "lock.try":
+            fid = int(a[0])
+            if 0 < fid < LOG_LOCK_MAGIC:
+                ev.append("tl,%d,%s" % (fid, a[1]))
+        elif name == "job.begin":
+            fid = int(a[0])
+            if a[1] == "unlocked":
+                ev.append("tl,%d,1" % fid)          # force_owned: the caller holds the lock for us
+            ev.append("bg,%d" % fid)
+            s["cur"] = fid
+        elif name in ("job.script", "job.oob"):
+            fid = int(a[0])
+            if s["cur"] == fid:
+                ev.append("fk,%d" % fid)
+                s["forked"].add(fid)
+                s["cur"] = None
+        elif name in ("job.record.end", "job.oob.end"):
+            s["lastrv"][int(a[0])] = a[1] if len(a) > 1 else "1"
+        elif name == "lock.unlock":
+            fid = int(a[0])
+            if not (0 < fid < LOG_LOCK_MAGIC):
+                continue
+            if fid in s["forked"]:
+                ev.append("je,%d,%d" % (fid, 0 if s["lastrv"].get(fid, "1") == "0" else 1))
+                s["forked"].discard(fid)
+            elif s["cur"] == fid:
+                ev.append("im,%d,%d" % (fid, 0 if result_of.get((pid, fid), "0") == "0" else 1))
+                s["cur"] = None
+            elif s["waited"] == fid:
+                ev.append("ul,%d" % fid)
+                s["waited"] = None
+            elif s["fe"] == fid:
+                s["fe"] = None
+            else:
+                ev.append("ul,%d" % fid)           # not explained by the control flow: let the acceptor say so
+        elif name == "lock.wait.end":
+            fid = int(a[0])
+            if 0 < fid < LOG_LOCK_MAGIC:
+                ev.append("wd,%d" % fid)
+                s["waited"] = fid
+        elif name == "run.release_mine":
+            ev.append("rm")
+        elif name == "run.waitall":
+            ev.append("wa")
+        elif name == "run.failed_elsewhere":
+            ev.append("fe,%s" % a[0])
+            s["fe"] = int(a[0])
+        elif name == "run.bad_target":
+            ev.append("bt")
+        elif name == "run.drained":
+            if a and a[0] == "err":
+                k = len(ev)
+                while k > 0 and ev[k - 1].startswith("je,"):
+                    k -= 1
+                ev.insert(k, "ab")
+                ev.append("fi,0")
+                s["done"] = True
+        elif name == "run.end":
+            ev.append("fi,%d" % (1 if a and a[0] == "ok" else 0))
+            s["done"] = True
+    return dict((pid, (s["kg"], s["ev"])) for pid, s in per.items())
+
+
+def replay_runloop(trace, keep_going=None):
+    """Replay every process's builder::run through the Lean acceptor RunLoop.step.  Returns (processes replayed,
+    [(pid, answer, events)] for the rejected ones).  `keep_going`: fallback when a process logged no result check."""
+    per = runloop_events(trace)
+    if not per:
+        return 0, []
+    items = list(per.items())
+    reqs = []
+    for pid, (kg, ev) in items:
+        k = kg if kg is not None else bool(keep_going)
+        reqs.append("runloop-replay %s %s" % ("k" if k else "-", ";".join(ev) if ev else "-"))
+    ans = run_lines(MODEL, reqs)
+    bad = [(pid, a, ev) for (pid, (kg, ev)), a in zip(items, ans) if not a.startswith("ok")]
+    return len(items), bad
+
+
+def runloop_check(prop, tag, trace, viol, stats=None, scen=None):
+    """Replay every process's builder::run of a trace through RunLoop; append a Violation when one is rejected.
+    Returns True when all were accepted."""
+    n, bad = replay_runloop(trace)
+    if stats is not None:
+        stats["runloop_processes"] = stats.get("runloop_processes", 0) + n
+    if not bad:
+        return True
+    pid, ans, ev = bad[0]
+    p = write_replay(prop, tag + "-runloop", dict(kind="trace-rejected-by-model", acceptor="RunLoop.step (RedoModel/RunLoop.lean): control flow of builder::run",
+                                                    scenario=scen, pid=pid, answer=ans, events=ev, rejected_processes=len(bad),
+                                                    replay="printf 'runloop-replay - %s\\n' | redomodel" % ";".join(ev)))
+    viol.append(Violation(prop, p, "%s: the control flow of builder::run in process %d is rejected by the RunLoop model: %s" % (tag, pid, ans), no_input=True))
+    return False
